@@ -1,4 +1,5 @@
 """C15 — DOT output is always valid Graphviz: one node per element, one path per relation."""
+import datetime
 import html
 import json
 from collections import Counter
@@ -84,6 +85,11 @@ def judge(ctx, g, doc, opts, text, out, fails, case):
                             for (a, v) in others:
                                 if html.escape(str(a)) not in lab:
                                     fails.append(Failure("oracle", None, "annotation of %s lacks attribute %s" % (r.identifier, a), case))
+                                    break
+                                if isinstance(v, datetime.datetime) and html.escape(v.isoformat()) not in lab:
+                                    # a date-time is shown as its ISO 8601 text: every field, the fraction and the UTC offset
+                                    fails.append(Failure("oracle", None, "annotation of %s does not show %s = %s as that date-time" % (
+                                        r.identifier, a, v.isoformat()), case))
                                     break
     # relations: one labelled path with the right ends and direction
     out_edges = {}
